@@ -464,6 +464,8 @@ fn execute(plan: &TimerPlan, mode: Mode) -> RunOut {
     out.probes.push(("timers_ended_on_another_thread", n_moved));
     out.probes.push(("zero_durations", expected.iter().filter(|d| **d == 0.0).count() as u64));
     out.probes.push(("exactly_attributed_runs", exact as u64));
+    let n_panic = plan.threads.iter().flatten().filter(|o| matches!(o, TOp::Stop { how: How::PanicDrop, .. })).count() as u64 + if plan.panic_end { plan.threads.len() as u64 } else { 0 };
+    out.faults.push(("injected_panic_unwinding", n_panic));
     out.faults.push(("clock_freeze_or_zero_advance", expected.iter().filter(|d| **d == 0.0).count() as u64));
     out
 }
@@ -503,7 +505,7 @@ impl Scenario for C18 {
             rule: "one run = 1-3 simulated threads with 3-11 operations each over one shared histogram and one local histogram per thread: start_timer (shared/local), advance the simulated clock, observe_duration / stop_and_record / stop_and_discard / drop, move a shared timer to another thread, observe_closure_duration, local flush, collect; the clock is the simulator's (explicit advances plus seeded random steps incl. zero advance); ground truth for every duration is the pair of clock values the library actually read inside the start and stop calls; at quiescence the histogram must hold exactly the recorded durations (count, exact sum, buckets) and every returned duration must equal its ground truth; non-trivial = >=2 timers/closures; distinct = distinct (plan, interleaving)",
             assumptions: vec!["durations are multiples of 2^-9 s so sums are exact", "saturating_duration_since is the shim's (a regressing clock is not injected; zero advance is)", "start_coarse_timer (feature nightly) is outside the pinned build"],
             real: vec!["prometheus::{Histogram, HistogramTimer, LocalHistogram, LocalHistogramTimer} (all code)"],
-            stubbed: vec!["the clock (simulated, discrete-event)", "thread scheduling"],
+            stubbed: vec!["the clock (simulated, discrete-event)", "thread scheduling", "panics (raised by the harness inside an operation or at thread end, caught again after the destructors ran)"],
             expected_probes: vec!["timers_discarded", "timers_ended_on_another_thread", "zero_durations", "exactly_attributed_runs"],
         }
     }
